@@ -158,7 +158,8 @@ def plot_geo1(col, site, setup, out, rep):
 
     names = out["geo"]["row_sensor"]
     phi = np.array([[float(nm[1] + 1 + (50 if nm[0] == "ref" else 0))] for nm in names])
-    res = BaseResult(Fn=np.array([1.0]), Phi=phi)
+    # two modes in the result (the second one seven times the first): mode number 1 must draw the first column
+    res = BaseResult(Fn=np.array([1.0, 2.0]), Phi=np.hstack([phi, 7.0 * phi]))
     fig, ax = setup.plot_mode_geo1(res, mode_nr=1, scaleF=1)
     segs = []
     for ln in ax.lines:
@@ -321,7 +322,7 @@ def plot_geo2(col, site, setup, t, out, rep):
     names = expected_names(out)
     phi_by_name = {f"S{i}": i + 1.0 for i in range(1, t["n"] + 1)}
     phi = np.array([[phi_by_name[nm]] for nm in names])
-    res = BaseResult(Fn=np.array([1.0]), Phi=phi)
+    res = BaseResult(Fn=np.array([1.0, 2.0]), Phi=np.hstack([phi, 7.0 * phi]))      # mode number 1 = first column
     fig, ax = setup.plot_mode_geo2_mpl(res, mode_nr=1, scaleF=1, color="blue")
     clouds = []
     for c in ax.collections:                      # (background nodes, when given, are a scatter collection of their own)
